@@ -84,6 +84,7 @@ class Target:
             if data is not None and datain is not None:
                 n = min(len(data), len(datain))
                 datain[:n] = data[:n]
+                rec["transferred"] = n
             return GOOD, None
         op = cdb[0]
         h = getattr(self, "op_%02x" % op, None)
@@ -100,6 +101,8 @@ class Target:
             return
         n = min(len(data), len(datain))
         datain[:n] = data[:n]
+        if self.log:
+            self.log[-1]["transferred"] = n
 
     # -- SPC -----------------------------------------------------------
     def op_12(self, cdb, dataout, datain):          # INQUIRY
